@@ -22,6 +22,28 @@ CLAIMED = {
             "correctness of the cited formulas as transcribed in pbt/c03_oneloop.py (cross-validated: they reproduce the "
             "library on all sign patterns); THDM reference uses the model's own Yukawa getters as the property states",
             "4/C03"),
+    "C04": ("property-based testing (Hypothesis): reconstruction predicates against independently written mass matrices "
+            "(mpmath), tree-level identities, tachyon-flag equivalence, generation-swap metamorphic relation",
+            "Generated Lagrangian parameter sets incl. degenerate, massless and tachyonic spectra; all 17 sectors' "
+            "mass/mixing pairs must diagonalise the reference matrix written from the Lagrangian; unitarity, ordering, "
+            "Goldstone positions, sum rules, RAII restore of mHd2/mHu2 and bit-exact generation exchange are checked.",
+            "reference matrices in pbt/c04_spectrum.py (standard MSSM tree-level formulas); sampling, not proof",
+            "4/C04"),
+    "C08": ("property-based testing (Hypothesis): round trips mass basis -> getters -> gauge basis -> mass basis, "
+            "comparison with the SM input, CKM invariants",
+            "Generated mass-basis inputs over the stated domain incl. exact mass equalities and the whole range of "
+            "sin(beta-alpha); every input quantity must be reported back, the gauge-basis rebuild must give the same "
+            "spectrum, vector-boson/fermion masses must equal the SM input and the CKM moduli and Jarlskog invariant "
+            "must be reproduced.",
+            "tolerances scale with the size of the terms in the mass matrices as the property allows; sampling",
+            "4/C08"),
+    "C09": ("property-based testing (Hypothesis): differential comparison of twin models that describe the same theory "
+            "in different Yukawa parametrisations; bit-identity for ignored parameters",
+            "Generated THDM points; type I/II/X/Y vs aligned with the corresponding zeta_f, aligned vs general with "
+            "matching Pi_f, and twins differing only in documented-ignored parameters are compared on all a_mu functions "
+            "and the twelve Yukawa getters.",
+            "zeta table of arXiv:1607.06292 Table 1; tolerance widened for m_H+ < 80 GeV (ill-conditioned loop functions)",
+            "4/C09"),
     "C06": ("property-based testing (Hypothesis): metamorphic relation between a parameter point and its joint sign flip",
             "Generated on-shell points with independent signs and three independent generations; every public and helper "
             "a_mu function, the resummation factors, uncertainties and all masses are compared between the two runs.",
